@@ -10,17 +10,19 @@ OUT=/verif/seeded/$P-$I
 mkdir -p $OUT
 patch=$WT/seed_$I.patch
 demo=$WT/seed_${I}_demo_test.go.txt
-pkg=$(grep -m1 '^package ' $demo | awk '{print $2}')
+pkg=$(grep -m1 '^package ' $demo | awk '{print $2}' | sed 's/_test$//')
+race=""; if grep -q -- "-race" $demo; then race="-race"; export CGO_ENABLED=1; fi
+dname=zz_demo_test.go; if grep -q "aa_demo_test.go" $demo; then dname=aa_demo_test.go; fi
 run=$(grep -o -m1 'TestDemo[A-Za-z0-9_]*' $demo | head -1)
 cd $WT && git checkout -q -- . && git apply $patch || { echo "SEED $P-$I patch does not apply"; exit 1; }
 build=$(go build ./... 2>&1 | tail -1)
 tests=$(go test -vet=off -count=1 ./... 2>&1 | grep -c "^ok")
 fails=$(go test -vet=off -count=1 ./... 2>&1 | grep -c "^FAIL\|^---")
-cp $demo $pkg/zz_demo_test.go
-go test -vet=off -count=1 -run "$run" ./$pkg > /tmp/seed_with.log 2>&1; with=$?
-git checkout -q -- . ; cp $demo $pkg/zz_demo_test.go
-go test -vet=off -count=1 -run "$run" ./$pkg > /tmp/seed_without.log 2>&1; without=$?
-rm -f $pkg/zz_demo_test.go
+cp $demo $pkg/$dname
+go test $race -vet=off -count=1 -run "$run" ./$pkg > /tmp/seed_with.log 2>&1; with=$?
+git checkout -q -- . ; cp $demo $pkg/$dname
+go test $race -vet=off -count=1 -run "$run" ./$pkg > /tmp/seed_without.log 2>&1; without=$?
+rm -f $pkg/$dname
 echo "SEED $P-$I build='$build' suite_ok_pkgs=$tests suite_fail_lines=$fails demo_with_patch_exit=$with demo_without_patch_exit=$without"
 cp $patch $OUT/patch.diff; cp $demo $OUT/demo_test.go.txt; cp $WT/seed_${I}_notes.txt $OUT/notes.txt 2>/dev/null
 results=""
@@ -39,6 +41,7 @@ import json
 meta={"property":"$P","seed":"$P-$I","source":"independent sub-agent given only the property text and a scratch worktree",
  "confirmed":{"compiles":"$build"=="" ,"existing_suite_ok_packages":$tests,"existing_suite_failures":$fails,"demo_fails_with_change":$with!=0,"demo_passes_without_change":$without==0},
  "checks_run":[${results%,}],
+ "ran":"tools/seedtest.sh $P $I: git apply patch in the scratch worktree; go build ./... && go test -vet=off -count=1 ./... (existing suite); demonstration copied into the package and run with and without the change; then ./bin/symgo check -repo <worktree with the change> -prop <id> -no-evidence -stop-on-violation (the registered quick check, pointed at the changed tree); worktree reverted",
  "needs": open("$OUT/notes.txt").read() if __import__('os').path.exists("$OUT/notes.txt") else ""}
 json.dump(meta,open("$OUT/meta.json","w"),indent=1)
 PY
